@@ -13,13 +13,22 @@
       and `skip, lookahead, consume, buffered, in_sync, continuity, pes_todo` (TS) between calls, as
       the wrap-around logic documented in dvb_demux.c does.  RunPes / RunTs.
    Properties: PartitionInvariance (layer 3 = layer 2 after every prefix and for every chunking;
-   callback and coroutine interface), Recovery, NoLookaheadOverrun.                             *)
+   callback and coroutine interface), Recovery, NoLookaheadOverrun.
+
+   What happens to the frame in progress when the PES receiver meets damage is left open by the
+   property (it only speaks about the frames after the damage); it is a policy `pol` of the receiver,
+   fixed for its life time:
+     "none"  the lines collected so far are kept (libzvbi up to the repair of the dead `err < 0` test in
+             demux_pes_packet())
+     "err"   they are dropped when a data unit of a packet is malformed (the comment in demux_pes_packet():
+             "just discard the data collected so far for this frame"; libzvbi after the repair)
+     "all"   they are dropped at every anomaly: malformed data unit, bytes belonging to no packet,
+             malformed VBI packet header (what the TS receiver does with its own anomalies)
+   PartitionInvariance holds for each policy; which policies satisfy Recovery is decided by TLC
+   (MC_DvbDemux).  The TS receiver has one policy only.                                           *)
 EXTENDS DvbStream
 
-CONSTANTS PesResync,   \* TRUE: the PES receiver drops the frame in progress whenever it meets a malformed packet
-                       \* or bytes belonging to no packet (as the TS receiver does and as the comments in
-                       \* demux_pes_packet() announce); FALSE: as coded - it keeps the lines collected so far
-          HL,          \* PES_HEADER_LOOKAHEAD (48)
+CONSTANTS HL,          \* PES_HEADER_LOOKAHEAD (48)
           TSH,         \* TS_HEADER_LOOKAHEAD (10): TS header + start code, stream_id, PES_packet_length
           MaxLines     \* capacity of the sliced buffer of one frame (64)
 
@@ -107,7 +116,7 @@ Extract(fs, X, q, e) ==
    nf  a new frame begins with the next packet (initially, and after a frame was completed)
    ppts, fpts  time stamp of the current packet / of the first packet of the frame in progress
    fs  the frame in progress;  out  frames delivered;  cb  callback interface (else coroutine) *)
-D0(cb) == [nf |-> TRUE, ppts |-> <<0, 0>>, fpts |-> <<0, 0>>, fs |-> FS0, out |-> <<>>, cb |-> cb]
+D0(cb, pol) == [nf |-> TRUE, ppts |-> <<0, 0>>, fpts |-> <<0, 0>>, fs |-> FS0, out |-> <<>>, cb |-> cb, pol |-> pol]
 
 RECURSIVE PacketFrame(_, _, _, _)
 PacketFrame(d, X, q, e) ==
@@ -130,7 +139,8 @@ ValidHdr(d, X, p) ==
   ELSE [ok |-> ~d.nf, d |-> d]
 
 PLen(X, p) == At(X, p + 4) * 256 + At(X, p + 5)
-Drop(d) == IF PesResync THEN [d EXCEPT !.nf = TRUE] ELSE d
+DropE(d) == IF d.pol \in {"err", "all"} THEN [d EXCEPT !.nf = TRUE] ELSE d     \* malformed data unit
+DropJ(d) == IF d.pol = "all" THEN [d EXCEPT !.nf = TRUE] ELSE d               \* junk, malformed header
 StartCode(X, p) == At(X, p) = 0 /\ At(X, p + 1) = 0 /\ At(X, p + 2) = 1
 
 -----------------------------------------------------------------------------
@@ -138,16 +148,16 @@ StartCode(X, p) == At(X, p) = 0 /\ At(X, p + 1) = 0 /\ At(X, p + 2) = 1
 RECURSIVE RefPes(_, _, _, _)
 RefPes(X, n, pos, d) ==
   IF pos + HL > n THEN d                          \* a header is examined when HL bytes of it are there
-  ELSE IF ~StartCode(X, pos) \/ At(X, pos + 3) < 188 THEN RefPes(X, n, pos + 1, Drop(d))
+  ELSE IF ~StartCode(X, pos) \/ At(X, pos + 3) < 188 THEN RefPes(X, n, pos + 1, DropJ(d))
   ELSE IF At(X, pos + 3) # 189 THEN RefPes(X, n, pos + 6 + PLen(X, pos), d)         \* packet of another stream
-  ELSE IF PLen(X, pos) < MinPL THEN RefPes(X, n, pos + 6 + PLen(X, pos), Drop(d))
+  ELSE IF PLen(X, pos) < MinPL THEN RefPes(X, n, pos + 6 + PLen(X, pos), DropJ(d))
   ELSE LET v == ValidHdr(d, X, pos)  e == pos + 6 + PLen(X, pos) IN
-       IF ~v.ok THEN RefPes(X, n, e, Drop(d))
+       IF ~v.ok THEN RefPes(X, n, e, DropJ(d))
        ELSE IF e > n THEN v.d
        ELSE LET r == PacketFrame([v.d EXCEPT !.fs.ndu = 0], X, pos + HB, e) IN
-            RefPes(X, n, e, IF r.r = "err" THEN Drop(r.d) ELSE r.d)
+            RefPes(X, n, e, IF r.r = "err" THEN DropE(r.d) ELSE r.d)
 
-Frames(X, n) == RefPes(X, n, 0, D0(TRUE)).out
+Frames(X, n, pol) == RefPes(X, n, 0, D0(TRUE, pol)).out
 
 -----------------------------------------------------------------------------
 (* ---- layer 3: the incremental receiver ----
@@ -161,8 +171,8 @@ Frames(X, n) == RefPes(X, n, 0, D0(TRUE)).out
          extract from pbuf; coroutine re-entry)
    ret   the last call returned because a frame is complete (coroutine)
    bad   ghost: a byte outside the readable window was examined                                *)
-S0(ts, cb, pid) ==
-  [rd |-> 0, ce |-> 0, cz |-> 0, skip |-> 0, look |-> HL, left |-> 0, d |-> D0(cb), ret |-> FALSE, bad |-> FALSE,
+S0(ts, cb, pid, pol) ==
+  [rd |-> 0, ce |-> 0, cz |-> 0, skip |-> 0, look |-> HL, left |-> 0, d |-> D0(cb, pol), ret |-> FALSE, bad |-> FALSE,
    ts |-> ts, pid |-> pid, tskip |-> 0, tlook |-> TSS, tcons |-> 0, tn |-> 0, sync |-> FALSE, cont |-> -1,
    ptodo |-> 0, pbuf |-> <<>>, fbp |-> 0, ftodo |-> 0]
 
@@ -201,18 +211,18 @@ StepPes(X, w) ==
   IF s.look > HL THEN      \* the data units of a packet are available in [dst, dst + look)
       LET r == PacketFrame([s.d EXCEPT !.fs.ndu = 0], X, dst, dst + s.look) IN
       IF r.r = "cb" THEN [s EXCEPT !.d = r.d, !.ret = TRUE]
-      ELSE [s EXCEPT !.d = IF r.r = "err" THEN Drop(r.d) ELSE r.d, !.skip = s.look, !.look = HL]
+      ELSE [s EXCEPT !.d = IF r.r = "err" THEN DropE(r.d) ELSE r.d, !.skip = s.look, !.look = HL]
   ELSE
       LET c == Scan(X, dst, w.se)
           rel == c.p - dst
           hi == IF c.k = "none" THEN c.p - 1 + 3 ELSE IF c.k = "other" THEN c.p + 5 ELSE c.p + HB - 1
           s0 == [s EXCEPT !.bad = @ \/ hi >= w.rend \/ dst > w.se]
-          s1 == IF rel > 0 THEN [s0 EXCEPT !.d = Drop(@)] ELSE s0
+          s1 == IF rel > 0 THEN [s0 EXCEPT !.d = DropJ(@)] ELSE s0
       IN IF c.k = "none" THEN [s1 EXCEPT !.skip = rel]
          ELSE IF c.k = "other" THEN [s1 EXCEPT !.skip = rel + 6 + PLen(X, c.p)]
-         ELSE IF PLen(X, c.p) < MinPL THEN [s1 EXCEPT !.d = Drop(@), !.skip = rel + 6 + PLen(X, c.p)]
+         ELSE IF PLen(X, c.p) < MinPL THEN [s1 EXCEPT !.d = DropJ(@), !.skip = rel + 6 + PLen(X, c.p)]
          ELSE LET v == ValidHdr(s1.d, X, c.p) IN
-              IF ~v.ok THEN [s1 EXCEPT !.d = Drop(@), !.skip = rel + 6 + PLen(X, c.p)]
+              IF ~v.ok THEN [s1 EXCEPT !.d = DropJ(@), !.skip = rel + 6 + PLen(X, c.p)]
               ELSE [s1 EXCEPT !.d = v.d, !.skip = rel + HB, !.look = PLen(X, c.p) + 6 - HB]
 
 RECURSIVE RunPes(_, _)
@@ -324,13 +334,13 @@ RunTs(X, s) ==
 Run(X, s) == IF s.ts THEN (IF s.ce = s.rd THEN s ELSE RunTs(X, s)) ELSE RunPes(X, s)
 
 \* vbi_dvb_demux_feed(buffer, n): frames are handed to the callback while the buffer is consumed
-Feed(X, s, n) == Run(X, [s EXCEPT !.ce = @ + n, !.cz = n, !.ret = FALSE])
+Feed(X, s, n) == [Run(X, [s EXCEPT !.ce = @ + n, !.cz = n, !.ret = FALSE]) EXCEPT !.cz = 0]
 
 (* vbi_dvb_demux_cor(sliced, maxl, pts, &buffer, &left): n > 0 passes a new buffer (the previous one was
    used up), n = 0 calls again with the rest of the previous buffer.  Returns when a frame is complete
    (the first maxl lines are copied out) or the buffer is used up. *)
 Cor(X, s, n, maxl) ==
-  LET t == Run(X, [s EXCEPT !.ce = @ + n, !.cz = (s.ce + n) - s.rd, !.ret = FALSE])
+  LET t == [Run(X, [s EXCEPT !.ce = @ + n, !.cz = (s.ce + n) - s.rd, !.ret = FALSE]) EXCEPT !.cz = 0]
       k == Mn(Len(t.d.fs.lines), maxl)
   IN IF t.ret /\ k > 0
      THEN [t EXCEPT !.d.out = Append(@, [lines |-> SubSeq(t.d.fs.lines, 1, k), pts |-> t.d.fpts]), !.d.fs.lines = <<>>]
